@@ -543,4 +543,98 @@ theorem setColourAttrDesc_pen (sc : Pen.Scanf) (o : PenObj) (a : PenAttr) (s : L
   split <;> exact descCore_pen _ _ _ _ _
 
 end PenObj
+/-! ### The recorded libc behaviour on the documented grammar -/
+
+namespace Scan
+open Pen
+
+theorem uint8_forall (P : UInt8 → Bool) (h : (List.range 256).all (fun n => P (UInt8.ofNat n)) = true) (c : UInt8) :
+    P c = true := by
+  have := List.all_eq_true.1 h c.toNat (List.mem_range.2 c.toNat_lt)
+  simpa using this
+
+theorem digit_facts (c : UInt8) (h : isDigit c = true) :
+    isSpace c = false ∧ (c == 45) = false ∧ (c == 43) = false ∧ (c == 35) = false ∧ (c == 104) = false := by
+  have := uint8_forall (fun c => !isDigit c || (!isSpace c && !(c == 45) && !(c == 43) && !(c == 35) && !(c == 104)))
+    (by decide +kernel) c
+  simp [h] at this
+  simp [this]
+
+theorem takeWhile_all {α} (p : α → Bool) (l : List α) (h : ∀ x ∈ l, p x = true) : l.takeWhile p = l := by
+  induction l with
+  | nil => rfl
+  | cons a l ih =>
+    simp only [List.takeWhile_cons, h a (List.mem_cons_self ..)]
+    simp [ih (fun x hx => h x (List.mem_cons_of_mem _ hx))]
+
+/-- The decimal value of a digit string (what `strtol` computes). -/
+def decVal (ds : List UInt8) : Nat := ds.foldl (fun acc d => acc * 10 + (d.toNat - 48)) 0
+
+/-- `sscanf("%d")` on a non-empty string of decimal digits whose value fits an `int`. -/
+theorem scanD_digits (ds : List UInt8) (hne : ds ≠ []) (hd : ∀ d ∈ ds, isDigit d = true) (hv : decVal ds < 2 ^ 31) :
+    scanD ds = some (decVal ds : Int) := by
+  cases ds with
+  | nil => exact absurd rfl hne
+  | cons c rest =>
+    have hc := digit_facts c (hd c (List.mem_cons_self ..))
+    have htw : (c :: rest).takeWhile isDigit = c :: rest := takeWhile_all _ _ hd
+    unfold scanD skipSpace
+    simp only [List.dropWhile_cons, hc.1, Bool.false_eq_true, if_false]
+    simp only [hc.2.1, hc.2.2.1, Bool.or_self, Bool.false_eq_true, if_false, htw]
+    simp only [List.isEmpty_cons, Bool.false_eq_true, if_false]
+    have hv' : ((List.foldl (fun acc d => acc * 10 + (d.toNat - 48)) 0 (c :: rest) : Nat) : Int) < 2 ^ 31 := by
+      have : (List.foldl (fun acc d => acc * 10 + (d.toNat - 48)) 0 (c :: rest)) = decVal (c :: rest) := rfl
+      rw [this]; exact_mod_cast hv
+    generalize hn : (List.foldl (fun acc d => acc * 10 + (d.toNat - 48)) 0 (c :: rest) : Nat) = n at hv'
+    have hdv : decVal (c :: rest) = n := hn
+    rw [hdv]
+    congr 1
+    have h1 : min (n : Int) (2 ^ 63 - 1) = n := by omega
+    have h2 : max (-(2 : Int) ^ 63) (n : Int) = n := by omega
+    rw [h1, h2]
+    exact wrapSigned_of_range 32 (by decide) _ (by first | omega | simp) (by first | omega | simp)
+
+
+theorem digits_no_hash (ds : List UInt8) (hd : ∀ d ∈ ds, isDigit d = true) : ds.findIdx? (· == 35) = none := by
+  rw [List.findIdx?_eq_none_iff]
+  intro x hx; exact (digit_facts x (hd x hx)).2.2.2.1
+
+theorem digits_not_hi (ds : List UInt8) (hd : ∀ d ∈ ds, isDigit d = true) : (ds.take 3 == hiPrefix) = false := by
+  cases ds with
+  | nil => decide
+  | cons c rest =>
+    have hc := (digit_facts c (hd c (List.mem_cons_self ..))).2.2.2.2
+    have hc' : c ≠ 104 := by simpa using hc
+    rw [Bool.eq_false_iff]
+    intro h
+    have h2 : List.take 3 (c :: rest) = hiPrefix := by simpa using h
+    have h3 := congrArg List.head? h2
+    simp [hiPrefix] at h3
+    exact hc' h3
+
+/-- Under the recorded libc behaviour: a decimal number is accepted as that colour index. -/
+theorem desc_number (ds : List UInt8) (hne : ds ≠ []) (hd : ∀ d ∈ ds, isDigit d = true) (hv : decVal ds < 2 ^ 31) :
+    descParse glibcScanf ds = some ((decVal ds : Int), none) := by
+  unfold descParse
+  rw [digits_not_hi ds hd]
+  simp only [Bool.false_eq_true, if_false]
+  unfold descParseCore
+  simp only [digits_no_hash ds hd, glibcScanf, scanD_digits ds hne hd hv]
+  simp
+
+/-- … and after `hi-`, a number 0…7 gives 8…15, a larger one is rejected. -/
+theorem desc_hi_number (ds : List UInt8) (hne : ds ≠ []) (hd : ∀ d ∈ ds, isDigit d = true) (hv : decVal ds < 2 ^ 31) :
+    descParse glibcScanf (hiPrefix ++ ds) = if decVal ds ≤ 7 then some ((decVal ds : Int) + 8, none) else none := by
+  unfold descParse
+  have : ((hiPrefix ++ ds).take 3 == hiPrefix) = true := by simp [hiPrefix]
+  rw [this]
+  simp only [if_true]
+  have hdrop : (hiPrefix ++ ds).drop 3 = ds := by simp [hiPrefix]
+  rw [hdrop]
+  unfold descParseCore
+  simp only [digits_no_hash ds hd, glibcScanf, scanD_digits ds hne hd hv]
+  split <;> split <;> simp_all <;> omega
+
+end Scan
+
 end Tickit
